@@ -164,6 +164,8 @@ func runCheck(prop, tier string) int {
 		return checkC05(tier)
 	case "C16":
 		return checkC16(tier)
+	case "C20":
+		return checkC20(tier)
 	}
 	infra("no check registered for %s", prop)
 	return 2
@@ -206,7 +208,9 @@ func buildFrontw(ordered bool) (string, error) {
 // goTool runs the go command in the harness module.  When VERIF_REPO points at another
 // checkout (scratch worktrees used for sensitivity experiments) a modfile with the replace
 // directive redirected is generated, so that nothing under /verif/sim changes.
-func goTool(args ...string) (string, error) {
+func goTool(args ...string) (string, error) { return goToolEnv(goEnv(), args...) }
+
+func goToolEnv(env []string, args ...string) (string, error) {
 	if repoRoot() != "/repo" {
 		mf := filepath.Join(cacheDir, "alt.mod")
 		b, err := os.ReadFile(filepath.Join(simDir, "go.mod"))
@@ -220,5 +224,5 @@ func goTool(args ...string) (string, error) {
 		os.WriteFile(filepath.Join(cacheDir, "alt.sum"), sum, 0o644)
 		args = append([]string{args[0], "-modfile=" + mf}, args[1:]...)
 	}
-	return run(simDir, goEnv(), goBin, args...)
+	return run(simDir, env, goBin, args...)
 }
